@@ -5,7 +5,7 @@ PROP = {
     "rule": ("[unit TestMessageHandlersE2E: a real policy-mode HandlingDataManager; 2-6 transactions (first attempts with id == sequence id and retried attempts with a fresh id and the first attempt's sequence id) send their request and response SPOE messages through routing.Handler in a generated order with reloads that switch a global retry remedy on or off; a 5xx response must get a modify_response action exactly when the version current at its own request enables the remedy] "
              "the real config.TxnPoliciesAccessor (built by config.BuildInitialFromFile from a scratch policies.yaml, validation rules registered as "
              "routing.initializePolicies does) on a virtual clock; every policy version carries a unique marker in the name of a disabled global remedy. "
-             "TestHistories: rapid histories of <=40 events over transaction ids that are unique but close to one another (prefixes, case variants, blanks): "
+             "TestHistories: rapid histories of <=40 events (one history in four has a wave of 40-600 further transactions that send their request at one instant, so that the vacuum backlog holds hundreds of pins) over transaction ids that are unique but close to one another (prefixes, case variants, blanks): "
              "request(i) = first GetTxnPoliciesData(i); response(i) = a further look-up (response handler / diagnosis worker); reload by UpdatePoliciesData, "
              "ReloadFromFile, UpdateRawData+ReloadFromFile (POST /apply_policies with body), unparsable file (must fail), HAProxy refusing the endpoint update "
              "(must fail); fail-safe revert to diagnosis-free / last-loaded through the loaded-policies files; advance by "
